@@ -14,13 +14,12 @@
    carry a ticket (order of arrival in StreamWriter's FlowControlMixin._drain_waiters);
    `fifo_ok` is the wake-up rule "the drain waiter that suspended first resumes first".
 
-   send_msg(m) =  segment A: state gates, Codec.encode numbering (SequenceReset / PossDupFlag=Y
-                  keep their own MsgSeqNum, everything else allocates next_num_out), writer.write
-                  ; suspension in drain ;
-                  segment B: nothing for a reply to a ResendRequest (PossDupFlag=Y, or SequenceReset
-                  with GapFillFlag=Y: the journal keeps the original messages); otherwise
-                  Journaler.persist_msg under the frame's number: DuplicateSeqNoError if the row
-                  exists, else row n := frame and stored counter := n.
+   send_msg(m) =  ONE atomic segment: state gates, Codec.encode numbering (SequenceReset / PossDupFlag=Y
+                  keep their own MsgSeqNum, everything else allocates next_num_out), then - unless the
+                  message is a reply to a ResendRequest (PossDupFlag=Y, or SequenceReset with GapFillFlag=Y:
+                  the journal keeps the original messages) - Journaler.persist_msg under the frame's
+                  number (DuplicateSeqNoError if the row exists, nothing is written then; else row n :=
+                  frame and stored counter := n), then writer.write ; suspension in drain ; return.
 
    The reader task servicing a ResendRequest (_process_resend) is a task too: IStateHook
    (HANDLING) ; IResend = recover_messages + remember next_num_out, then per recovered row
@@ -135,7 +134,9 @@ Definition gate (m : msg) (w : world) : gate_res :=
   if st w <? S_NCE then GErr EConn
   else if st w =? S_NCE then
     (if (m_ty m =? T_LOGON) || (m_ty m =? T_LOGOUT) then GHook else GErr EConn)
-  else if (role w =? R_INITIATOR) && (st w =? S_LOGON_SENT) && negb (m_ty m =? T_LOGOUT) then GErr EConn
+  else if role w =? R_INITIATOR then
+    (if (st w =? S_LOGON_SENT) && negb (m_ty m =? T_LOGOUT) then GErr EConn else GGo)
+  else if (st w =? S_LOGON_RECV) && negb ((m_ty m =? T_LOGON) || (m_ty m =? T_LOGOUT)) then GErr EConn
   else GGo.
 
 (* Codec.encode: which MsgSeqNum goes into the frame *)
@@ -164,7 +165,9 @@ Definition raise_ (abort : bool) (e : err) (is_send : bool) (out : list outcome)
     else (mkT [] WDone out' (Some e) abort, w)
   else k (OExc e :: out) w.
 
-(* TestRequest gate, numbering, write, suspension in drain; rest = the code after this call *)
+(* TestRequest gate, numbering, journal write (unless it is a reply to a ResendRequest), transport write,
+   suspension in drain - one stretch without an await; rest = the code after this call.  A journal error
+   leaves nothing on the wire (the number is already allocated). *)
 Definition send_tail (abort : bool) (m : msg) (rest : list instr) (out : list outcome) (w : world)
            (k : list outcome -> world -> res) : res :=
   if (m_ty m =? T_TESTREQ) && negb (treq w) then raise_ abort EConn true out w rest k
@@ -172,7 +175,11 @@ Definition send_tail (abort : bool) (m : msg) (rest : list instr) (out : list ou
        | inl e => raise_ abort e true out w rest k
        | inr (n, w1) =>
            let f := mkF n (m_ty m) (m_pd m) (m_id m) (m_gf m) in
-           (mkT rest (WDrain f (tick w1)) out None abort, push_wire f w1)
+           if nojournal f then (mkT rest (WDrain f (tick w1)) out None abort, push_wire f w1)
+           else match persist f w1 with
+                | None => raise_ abort EDupSeq true out w1 rest k
+                | Some w2 => (mkT rest (WDrain f (tick w2)) out None abort, push_wire f w2)
+                end
        end.
 
 Definition send_head (abort : bool) (m : msg) (rest : list instr) (out : list outcome) (w : world)
@@ -270,12 +277,7 @@ Definition resume (t : task) (w : world) : task * world :=
   match t_wait t with
   | WDone => (t, w)
   | WStart | WHook => exec (t_abort t) (t_code t) (t_out t) w
-  | WDrain f _ =>
-      if nojournal f then exec (t_abort t) (t_code t) (OOk :: t_out t) w
-      else match persist f w with
-           | Some w' => exec (t_abort t) (t_code t) (OOk :: t_out t) w'
-           | None => raise_ (t_abort t) EDupSeq true (t_out t) w (t_code t) (exec (t_abort t) (t_code t))
-           end
+  | WDrain _ _ => exec (t_abort t) (t_code t) (OOk :: t_out t) w     (* drain returned: send_msg returns *)
   end.
 
 Record config := mkC { c_w : world; c_ts : list task }.
